@@ -14,8 +14,8 @@ using FR = FastRational;
         VASSERT(vfr_wellformed(&r), #NAME ": result well-formed, canonical, word iff it fits"); \
         VASSERT(vfr_same_as(0, &a) && vfr_same_as(1, &b), #NAME ": operands keep their value"); \
         VASSERT(vfr_wellformed(&a) && vfr_wellformed(&b), #NAME ": operands stay well-formed"); \
-        if (vfr_state(&r) & 4) { VWITNESS(#NAME "-result-in-mpq-form"); }                \
-        else { VWITNESS(#NAME "-result-in-word-form"); }                                 \
+        if (vfr_state(&r) & 1) { VWITNESS(#NAME "-result-has-word-part"); }              \
+        else { VWITNESS(#NAME "-result-only-in-gmp-form"); }                                 \
     }
 
 #define ASSIGNOP(NAME, OPNUM, STMT, PRE, KA, KB)                                                 \
@@ -28,12 +28,12 @@ using FR = FastRational;
         VASSERT(vfr_is_result(&a, OPNUM, 0, 1), #NAME ": result is the exact rational"); \
         VASSERT(vfr_wellformed(&a), #NAME ": result well-formed, canonical, word iff it fits"); \
         VASSERT(vfr_same_as(1, &b) && vfr_wellformed(&b), #NAME ": right operand unchanged"); \
-        if (vfr_state(&a) & 4) { VWITNESS(#NAME "-result-in-mpq-form"); }                \
-        else { VWITNESS(#NAME "-result-in-word-form"); }                                 \
+        if (vfr_state(&a) & 1) { VWITNESS(#NAME "-result-has-word-part"); }              \
+        else { VWITNESS(#NAME "-result-only-in-gmp-form"); }                                 \
     }
 
-#define KW ((uint8_t)1)
-#define KM ((uint8_t)6)
+#define KW ((uint8_t)5)   // word part valid: WORD_VALID, WORD_PLUS_MPQ_INITIALIZED, WORD_AND_MPQ
+#define KM ((uint8_t)2)   // only the GMP part valid (value does not fit a word)
 BINOP(h_add_ww, 0, a + b, (void)0, KW, KW)
 BINOP(h_add_wm, 0, a + b, (void)0, KW, KM)
 BINOP(h_add_mw, 0, a + b, (void)0, KM, KW)
